@@ -148,6 +148,23 @@ def judge(lines, info, traj, run: Run, recs, ended):
             for a, b in zip(starts, starts[1:]):
                 if not any(a <= c <= b for c in completes):
                     probs.append(("C04:Alarm-started-again-before-completing", f"Alarm {li['id']} started at {a} and {b} without completing in between ({completes})"))
+            # every activation runs the whole body: a Mark of the body (not inside a nested Watch/Alarm, not after an
+            # 'End block' that leaves the alarm's own enclosing block) appears at least once per completed run
+            marks_seen = collections.Counter(run.marks())
+            for bl in info:
+                if bl["name"] != "Mark" or bl["idx"] <= li["idx"]:
+                    continue
+                chain = []
+                p_ = bl["parent"]
+                while p_ is not None and p_ != li["idx"]:
+                    chain.append(info[p_]["name"])
+                    p_ = info[p_]["parent"]
+                if p_ != li["idx"] or any(nm in ("Watch", "Alarm") for nm in chain):
+                    continue
+                if marks_seen[bl["arg"]] < len(completes) and not cancels:
+                    probs.append(("C04:Alarm-run-skipped-part-of-its-body",
+                                  f"Alarm {li['id']} completed {len(completes)} runs (ticks {completes}) but its body line "
+                                  f"{bl['id']} 'Mark: {bl['arg']}' ran only {marks_seen[bl['arg']]} times"))
             # re-arm liveness
             for c in completes:
                 window = range(c + 1, c + 11)
@@ -206,6 +223,12 @@ def corpus(ctx):
             continue
         # End block only directly inside a Block or inside a Watch/Alarm that sits in a Block
         fs.append(f)
+    # Alarm bodies that contain a Block (with its End block): beyond the size bound of the quick tier
+    M, EB = ("M", ()), ("EB", ())
+    blk = ("K", (M, EB))
+    for f in ((("Al", (blk,)),), (("Al", (M, blk)),), (("Al", (blk, M)),), (("Al", (("Wa", (blk,)),)),), (("K", (("Al", (blk,)), ("W", ()), EB)),)):
+        if f not in fs:
+            fs.append(f)
     plain = trajectories(2 if ctx.quick else 3)
     few = [tr for tr in plain if len(tr[1]) <= 1]
     items = []
